@@ -6,6 +6,8 @@ import Q1t.Proofs.SimGFExample
 import Q1t.Proofs.SimGFComplex
 import Q1t.Proofs.SimHypsComplex
 import Q1t.Proofs.SimGFPeek
+import Q1t.Proofs.SimGFStab
+import Q1t.Proofs.SimGFStabExample
 /-!
 # C01 — shot histograms are exact Born-rule samples of the circuit
 
@@ -129,6 +131,61 @@ theorem final_peek_histogram_partial (H : Hyps α P nz n valid) (ord : List (Nat
 
 end
 
+/-! ## the stabilizer backend -/
+
+section stab
+open Q1t.Tableau
+variable {α P R : Type} [CommRing α] [Amp α P] [SimAmp α] [CommRing R] {nz : α → Prop} {n N : Nat}
+variable {valid : GateTerm P → List Nat → Prop}
+variable {half : α} {ph : List Nat} {conjOf : GateTerm P → Tab.Conj} {St : Tab → List α → Prop}
+
+/- FULL STATEMENT: `histogram_gf_full` with `B := stabBackend` for all Clifford circuits — false (D4, D5 below).
+   Proved: the law on F_stab = gates and classically controlled gates on valid placements, `measure` in any basis,
+   barriers (`SimGF.InFS`); excluded are `reset` (forces outcome 0, D4), `peek`/`peek_all` (D5), `reset_all`.
+   NOT yet covered although not known to be wrong: `measure_all` (done qubit by qubit by this backend; what is
+   missing is the identity "sum over basis states of the `measure_all` clause of `gfShot` = n nested two-outcome
+   sums", plus `Sim.measureAllTo_basis` for X/Y).
+   HYPOTHESES (`SimGF.StabHyps`): the tableau contract `tab : TableauOK St n ph conjOf valid` (C02/C03: what the
+   tableau operations mean IF they return) and, because the law is about probability mass and not about possible
+   runs, what the contract does not state:
+     `gateRuns`, `measRuns`, `collapseRuns` — the tableau operations RETURN on a tableau that describes a vector;
+     `randHalf` — a `Random` classification means equal weights of the two outcomes (the model draws with ½);
+     `iso`, `arity` — valid gates preserve the squared norm and have the right arity;
+     `half_add : half + half = 1`, `amp`, `sim`, `pos` (a vector of squared norm 0 is the zero vector).
+   For `St := Reach` (C03) `randHalf` is `TabG.random_weights` and `iso` is unitarity of the embedded matrix; the
+   three progress fields are not proved anywhere yet (C03 has `normalize_ok` for its `Q8` vectors only). -/
+
+/-- **Multinomial law on the stabilizer backend, restricted to F_stab** (all circuits of F_stab, all `n`, `N ≥ 1`,
+every commutative ring, every `x`): the `N`-shot generating function of the model's own `execOps stabBackend …` run
+from the fresh tableau is the `N`-th power of the single-shot Born generating function. -/
+theorem stab_histogram_gf_partial (H : StabHyps α P nz St n half ph conjOf valid)
+    (ord : List (Nat × Nat) → List (Nat × Nat)) (toR : α →+* R) (x : Nat → R) (ops : List (COp P))
+    (hF : ∀ op ∈ ops, InFS n valid op) (hN : 0 < N) :
+    expectOrd ord toR (execOps (stabBackend half ph conjOf) (StabState.new n N) (List.replicate N 0) ops)
+      (shotProdS x) = gfShot n toR x ops (SimGF.ket0 n, 0) ^ N :=
+  stab_histogram_gf toR H x ops hF hN
+
+/-- … from every homogeneous list of stabilizer ranges `(count, tableau, word)` whose tableaux describe vectors. -/
+theorem stab_exec_gf_partial (H : StabHyps α P nz St n half ph conjOf valid)
+    (ord : List (Nat × Nat) → List (Nat × Nat)) (toR : α →+* R) (x : Nat → R) (ops : List (COp P))
+    (hF : ∀ op ∈ ops, InFS n valid op) (rs : List (SRng α)) (hrs : GoodS St N rs) :
+    expectOrd ord toR (execOps (stabBackend half ph conjOf) (mkStab n N rs) (mkRegS rs) ops) (shotProdS x) =
+      valueS toR (gfShot n toR x ops) rs :=
+  stab_exec_gf toR H x ops hF rs hrs
+
+/-- **The choice of representation never changes the outcome distribution** (on F_stab, under the hypotheses of both
+laws): the two backends have the same `N`-shot generating function. -/
+theorem backends_agree_partial (Hv : Hyps α P nz n valid) (Hs : StabHyps α P nz St n half ph conjOf valid)
+    (ord : List (Nat × Nat) → List (Nat × Nat)) (hord : ∀ l, (ord l).Perm l) (toR : α →+* R) (x : Nat → R)
+    (ops : List (COp P)) (hF : ∀ op ∈ ops, InFS n valid op) (hN : 0 < N) :
+    expectOrd ord toR (execOps (stabBackend half ph conjOf) (StabState.new n N) (List.replicate N 0) ops)
+      (shotProdS x) =
+    expectOrd ord toR (execOps (vecBackend (α := α) (P := P)) (VecState.new n N) (List.replicate N 0) ops)
+      (shotProd x) :=
+  backends_agree toR Hv Hs hord x ops hF hN
+
+end stab
+
 /-! ## non-vacuity -/
 
 /-- the arithmetic hypotheses `amp`, `sim`, `wts` of `Hyps` hold together for the complex numbers (angles `ℝ`,
@@ -170,6 +227,18 @@ theorem histogram_gf_example_measure_all_X :
     expectOrd id (RingHom.id Q8) (execOps (vecBackend (α := Q8) (P := Empty)) (VecState.new 2 2) [0, 0] allXCirc)
       (SimGF.shotProd xT2) = gfShot 2 (RingHom.id Q8) xT2 allXCirc (SimGF.ket0 2, 0) ^ 2 :=
   law_on_allXCirc
+
+/-- a Clifford circuit with an entangling gate, a mid-circuit measurement, a classically controlled gate and X-basis
+measurements is in F_stab; on the model's own stabilizer run (generated phase and conjugation tables) the conclusions
+of `stab_histogram_gf_partial` and `backends_agree_partial` hold for 2 shots (kernel computation) -/
+example : ∀ op ∈ stabCirc, InFS 2 (placed 2) op := stabCirc_inFS
+theorem stab_histogram_gf_example :
+    expectOrd id (RingHom.id Q8) (execOps stabQ8 (StabState.new 2 2) [0, 0] stabCirc) (shotProdS xT) =
+      gfShot 2 (RingHom.id Q8) xT stabCirc (SimGF.ket0 2, 0) ^ 2 ∧
+    expectOrd id (RingHom.id Q8) (execOps stabQ8 (StabState.new 2 2) [0, 0] stabCirc) (shotProdS xT) =
+    expectOrd id (RingHom.id Q8) (execOps (vecBackend (α := Q8) (P := Empty)) (VecState.new 2 2) [0, 0] stabCirc)
+      (SimGF.shotProd xT) :=
+  ⟨law_on_stabCirc, stabCirc_backends_agree⟩
 
 /-- its single-shot distribution has four values of probability ¼ … -/
 example : ∀ v ∈ [0, 3, 4, 7],
